@@ -557,3 +557,9 @@ func Settle(d time.Duration) {
 	time.Sleep(d)
 	synctest.Wait()
 }
+
+// SawEOF reports whether the peer's FIN was observed after all data was taken.
+func (p *Peer) SawEOF() bool { p.Recv(); return p.EOF() }
+
+// PeerReleased reports whether the other side released (closed) its end.
+func (p *Peer) PeerReleased() bool { return p.C.Status().PeerClosed }
